@@ -465,7 +465,7 @@ End RelabelTheorem.
 
 (* non-vacuity: a three-residue chain stored with other keys, node order and edge orientation *)
 Open Scope string_scope.
-Definition ex_at (k : Z) : ratom := {| ra_key := k; ra_name := "EC"; ra_resname := "PEO" |}.
+Definition ex_at (k : Z) : ratom := {| ra_key := k; ra_name := "EC"; ra_resname := "PEO"; ra_attrs := [] |}.
 Definition ex_g : meta :=
   {| m_nodes := [{| mn_key := 0; mn_resid := 1; mn_atoms := [ex_at 0] |}; {| mn_key := 1; mn_resid := 2; mn_atoms := [ex_at 1] |};
                  {| mn_key := 2; mn_resid := 3; mn_atoms := [ex_at 2] |}]; m_edges := [(0, 1); (1, 2)];
@@ -491,7 +491,7 @@ Proof.
 Qed.
 
 Example ex_relabel_links :
-  let la k o := {| la_key := k; la_name := "EC"; la_order := o; la_resnames := ["PEO"]; la_replace := [] |} in
+  let la k o := {| la_key := k; la_name := "EC"; la_order := o; la_resnames := ["PEO"]; la_replace := []; la_attrs := [] |} in
   let l := {| l_atoms := [la "EC" (ONum 0); la "+EC" (ONum 1)];
               l_inters := [{| li_sec := "bonds"; li_atoms := ["EC"; "+EC"]; li_params := ["1"; "0.33"; "7000"]; li_version := 1; li_meta := [] |}];
               l_edges := [("EC", "+EC")]; l_res_nodes := [ONum 0; ONum 1]; l_res_edges := [(ONum 0, ONum 1)]; l_res_labels := [] |} in
